@@ -683,7 +683,14 @@ func (e *e2eEnv) run(c e2eCase) {
 				// several engine runs (port chunks) WHILE the target keeps answering: replies to the first probe
 				// are injected all the way through the chunk boundaries (a scanned host with an open port does
 				// this).  Every port of every chunk must still be probed exactly once, and sx must not crash.
+				// … with the race detector compiled in: what the receiver goroutine of one chunk and the goroutines of
+				// the next do to the same memory is reported (exit 66) even when this run happened to get away with it
+				sxRaceRuns = true
 				res = runSXWithReplies(lab, c.oneCPU, stdin, args)
+				sxRaceRuns = false
+				if res.exit == 66 {
+					res.stderr = "DATA RACE " + strings.Join(raceFrames(res.stderr), " ")
+				}
 				r.Count("reply-flood")
 			} else {
 				res = runSXOn(c.oneCPU, stdin, 60*time.Second, args...)
@@ -908,4 +915,16 @@ func runAppScan(c e2eCase, args []string, targets []uint32, stdin []byte) string
 	defer mu.Unlock()
 	sort.Strings(seen)
 	return "OK " + strings.Join(seen, "|")
+}
+
+// raceFrames: the lines of a race report that name sx's own code
+func raceFrames(report string) []string {
+	var out []string
+	for _, l := range strings.Split(report, "\n") {
+		l = strings.TrimSpace(l)
+		if strings.Contains(l, "v-byte-cpu/sx/") && len(out) < 8 {
+			out = append(out, l)
+		}
+	}
+	return out
 }
